@@ -42,10 +42,17 @@ def run(ctx: Ctx):
               ' threads finish": a failure recorded by ANY producer wakes all'
               ' waiters on both conditions (R-C05-1), and no stop/failure path'
               ' waits or notifies under a second lock in an inverted order'
-              ' (R-C04-4)', _fail_shared, qmodel(ctx), min_instances=8)
+              ' (R-C04-4); a producer submitted to the pool with its future'
+              ' dropped records every failure of its input itself, incl. a'
+              ' failing __iter__ (R-C05-10)', _fail_shared, qmodel(ctx), min_instances=10)
   ctx.include('R-C13-5', '"collects every generator\'s return value": the'
               ' return values are recorded before end-of-stream can be'
               ' observed (R-C04-6)', c04.r6, qmodel(ctx), min_instances=2)
+  from mlmverif.props import c12
+  ctx.include('R-C13-9', '"when the stream ... fails ... all helper threads finish and'
+              ' the pool is shut down": every failure that leaves the __next__ of'
+              ' the iterator that owns the thread pool has passed maybe_stop()'
+              ' (R-C12-15)', c12.r15, min_instances=4)
   ctx.include('R-C13-8', '"produces exactly the multiset ... all helper threads'
               ' finish": the bounded hand-over queues piter builds wake a blocked'
               ' producer after EVERY successful dequeue, whichever way the'
@@ -57,6 +64,7 @@ def _fail_shared(sub, m):
   from mlmverif.props import c04, c05
   sub.guard(c05.r1, m)
   sub.guard(c04.r4, m)
+  sub.guard(c05.r10, m)
 
 
 def r1(ctx: Ctx):
